@@ -261,13 +261,35 @@ func runSequence(seq int) {
 			return ids[rng.Intn(len(ids))]
 		}
 		r := rec{"fn": "wstep", "seq": seq, "step": step, "crypto": string(cfg.CryptoType), "op": "", "id": "", "res": "ok", "err": "", "k": 0,
-			"rightPw": true, "wasEncrypted": false, "unlockRestores": true, "wrongPwRejected": true}
+			"rightPw": true, "wasEncrypted": false, "unlockRestores": true, "wrongPwRejected": true, "onChange": false, "idTaken": false}
+		ulBefore := []string{}
+		for id := range unloaded {
+			ulBefore = append(ulBefore, id)
+		}
+		sort.Strings(ulBefore)
+		r["unloadedBefore"] = ulBefore
 		var opErr error
 		switch k := rng.Intn(20); {
+		case k == 19 && len(ids) > 0 && rng.Intn(2) == 0:
+			// the node restarts: from here on the freshly started service is the one that is used
+			r["op"], r["id"] = "restart", ""
+			s2, err := wallet.NewService(cfg)
+			if err != nil {
+				opErr = err
+			} else {
+				s = s2
+				for id := range unloaded {
+					delete(unloaded, id) // an unloaded wallet's file is loaded again at the next start
+				}
+			}
 		case k < 5 || len(ids) == 0:
 			si := seeds[rng.Intn(len(seeds))]
 			id := fmt.Sprintf("w%d.wlt", nextID)
 			nextID++
+			if len(ids) > 0 && rng.Intn(6) == 0 {
+				id = ids[rng.Intn(len(ids))] // a file name that is already taken
+				r["idTaken"] = true
+			}
 			o := wallet.Options{Type: si.typ, Seed: si.seed, SeedPassphrase: si.pass, Label: "l0", GenerateN: uint64(1 + rng.Intn(3)), XPub: si.xpub, CollectionPrivateKeys: si.keys}
 			if si.typ == wallet.WalletTypeXPub {
 				o.Seed = ""
@@ -284,6 +306,7 @@ func runSequence(seq int) {
 			if opErr == nil {
 				seedOf[id] = si
 				pwOf[id] = string(o.Password)
+				delete(unloaded, id)
 			}
 		case k < 9:
 			id := pick()
@@ -299,6 +322,12 @@ func runSequence(seq int) {
 				p = []byte(pw)
 			}
 			opts := []wallet.Option{wallet.OptionGenerateN(uint64(n))}
+			onChange := false
+			if si, ok := seedOf[id]; ok && si.typ == wallet.WalletTypeBip44 && rng.Intn(2) == 0 {
+				opts = append(opts, wallet.OptionChange()) // the change chain of a bip44 wallet (also while it is locked)
+				onChange = true
+			}
+			r["onChange"] = onChange
 			_, opErr = s.NewAddresses(id, p, opts...)
 		case k < 11:
 			id := pick()
